@@ -21,7 +21,9 @@ from mitmproxy.net.http import status_codes
 from mitmproxy.proxy.layers.http import _base, _http1, _http2, _events
 
 SPECIAL = "&<>\"'\n "
-ALPHA = list("&<>\"'") * 3 + list(";#x27ampltgquo") + list(" \t\n\r") * 2 + list("abAZ09/=()") + ["é", " ", "\xa0", "𝄞"]
+# characters that compatibility normalisation / width folding turns into markup (fullwidth, small forms, negated relations)
+LOOKALIKE = list("\uff1c\uff1e\uff02\uff07\uff06\ufe64\ufe65\ufe60\u226e\u226f\uff03\uff1b")
+ALPHA = list("&<>\"'") * 3 + list(";#x27ampltgquo") + list(" \t\n\r") * 2 + list("abAZ09/=()") + ["é", " ", "\xa0", "𝄞"] + LOOKALIKE
 MARK = "<script>\"'&"
 USED_STATUS = [400, 413, 502]
 
@@ -369,6 +371,9 @@ class Check(PropertyCheck):
                 yield fmt(400, "".join(t))
         for st in sorted(status_codes.RESPONSES) + [299, 599, 100, 999]:
             yield fmt(st, MARK)
+        for ch in LOOKALIKE:
+            yield fmt(502, ch)
+            yield fmt(400, "a" + ch + "script" + ch)
         e2e_share = 0.04 if tier == "quick" else 0.02
         while True:
             if rng.chance(e2e_share):
